@@ -2,37 +2,28 @@ import BreezyVerif.Model.C34
 /-! Helper lemmas for C34. -/
 namespace BreezyVerif.C34
 
-/-! ### splitlines / git-extra -/
+/-! ### git-extra: split on "\n" -/
 
-theorem splitlines_line (b rest : Bytes) (h : lineFree b = true) :
-    splitlines (b ++ 10 :: rest) = b :: splitlines rest := by
-  fun_induction lineFree b with
-  | case1 => simp [splitlines]
-  | case2 => simp at h
-  | case3 => simp at h
-  | case4 => simp at h
-  | case5 x r h1 h2 h3 ih =>
-    simp only [Bool.and_eq_true, Bool.not_eq_true', decide_eq_false_iff_not, not_or] at h
-    have ih' := ih h.2
-    obtain ⟨⟨n10, n13, n11, n12, n28, n29, n30⟩, _⟩ := h
-    rw [List.cons_append]
-    cases r with
-    | nil =>
-      simp only [List.nil_append] at ih' ⊢
-      rw [splitlines.eq_def]
-      simp_all [splitlines]
-    | cons y r' =>
-      rw [List.cons_append] at ih' ⊢
-      rw [splitlines.eq_def]
-      split <;> first | (simp_all; done) | (cases r' <;> simp_all)
+theorem splitNl_line : ∀ (b rest : Bytes), 10 ∉ b → splitNl (b ++ 10 :: rest) = b :: splitNl rest
+  | [], rest, _ => by simp [splitNl]
+  | x :: b, rest, h => by
+    have hx : x ≠ 10 := fun e => h (by simp [e])
+    have hb : (10 : UInt8) ∉ b := fun m => h (by simp [m])
+    simp [splitNl, hx, splitNl_line b rest hb]
 
-theorem splitlines_lines : ∀ (ls : List Bytes), (∀ l ∈ ls, lineFree l = true) →
-    splitlines (ls.map (· ++ [10])).flatten = ls
-  | [], _ => by simp [splitlines]
+theorem splitNl_lines : ∀ (ls : List Bytes), (∀ l ∈ ls, (10 : UInt8) ∉ l) →
+    splitNl (ls.map (· ++ [10])).flatten = ls ++ [[]]
+  | [], _ => by simp [splitNl]
   | l :: ls, h => by
     simp only [List.map_cons, List.flatten_cons, List.append_assoc, List.cons_append,
       List.nil_append]
-    rw [splitlines_line l _ (h l (by simp)), splitlines_lines ls (fun x hx => h x (by simp [hx]))]
+    rw [splitNl_line l _ (h l (by simp)), splitNl_lines ls (fun x hx => h x (by simp [hx]))]
+
+theorem extraLinesOf_lines (ls : List Bytes) (h : ∀ l ∈ ls, (10 : UInt8) ∉ l) :
+    extraLinesOf (ls.map (· ++ [10])).flatten = ls := by
+  unfold extraLinesOf
+  rw [splitNl_lines ls h]
+  simp
 
 theorem split1_nosep (sep : UInt8) : ∀ (k v : Bytes), sep ∉ k → split1 sep (k ++ sep :: v) = [k, v]
   | [], v, _ => by simp [split1]
@@ -51,9 +42,10 @@ theorem knownKey_nospace {k : Bytes} (h : knownKey k = true) : 32 ∉ k := by
   simp only [knownKey, decide_eq_true_eq] at h
   rcases h with rfl | rfl <;> decide
 
-/-- all extra headers are recognised and their `key value` line has no line boundary -/
+/-- all extra headers are recognised and their value has no embedded newline
+(no continuation lines) -/
 def extraOK (extra : List (Bytes × Bytes)) : Bool :=
-  extra.all fun kv => knownKey kv.1 && lineFree (kv.1 ++ 32 :: kv.2)
+  extra.all fun kv => knownKey kv.1 && !kv.2.contains 10
 
 theorem importExtra_ok (strict : Bool) : ∀ (extra : List (Bytes × Bytes)) (ls un : List Bytes),
     extraOK extra = true → importExtra strict extra = .ok (ls, un) →
@@ -100,19 +92,24 @@ theorem exportExtra_lines : ∀ (extra : List (Bytes × Bytes)), extraOK extra =
       exportExtra_lines rest hrest]
     rfl
 
+theorem knownKey_nonl {k : Bytes} (h : knownKey k = true) : (10 : UInt8) ∉ k := by
+  simp only [knownKey, decide_eq_true_eq] at h
+  rcases h with rfl | rfl <;> decide
+
 /-- `git-extra` written by import is read back by export -/
 theorem extra_roundtrip (extra : List (Bytes × Bytes)) (hok : extraOK extra = true) :
-    exportExtra (splitlines ((extra.map fun kv => kv.1 ++ 32 :: kv.2 ++ [10]).flatten)) = .ok extra := by
+    exportExtra (extraLinesOf ((extra.map fun kv => kv.1 ++ 32 :: kv.2 ++ [10]).flatten)) = .ok extra := by
   have h1 : (extra.map fun kv => kv.1 ++ 32 :: kv.2 ++ [10]) =
       (extra.map fun kv => kv.1 ++ 32 :: kv.2).map (· ++ [10]) := by
     simp [List.map_map, Function.comp_def]
-  rw [h1, splitlines_lines _ (by
+  rw [h1, extraLinesOf_lines _ (by
     intro l hl
     simp only [List.mem_map] at hl
     obtain ⟨kv, hkv, rfl⟩ := hl
     have := (List.all_eq_true.mp hok) kv hkv
-    simp only [Bool.and_eq_true] at this
-    exact this.2)]
+    simp only [Bool.and_eq_true, Bool.not_eq_true', List.contains_eq_mem, decide_eq_false_iff_not] at this
+    simp only [List.mem_append, List.mem_cons, not_or]
+    exact ⟨knownKey_nonl this.1, by decide, this.2⟩)]
   exact exportExtra_lines extra hok
 
 /-! ### parents, mergetags -/
@@ -145,9 +142,17 @@ theorem decodeUsing_ok {k : Codec} {c : Commit} {cm : PStr} {au msg : Option PSt
   cases hm : c.message <;> simp only [hm] at h <;> (repeat' split at h) <;>
     simp_all <;> grind
 
+theorem encName_none (impl : Option Bytes) (h : impl = none ∨ impl = some (bs "latin1")) :
+    ∀ e, (e = none ∨ e = some (bs "false")) →
+      encName e impl = implOr impl := by
+  intro e he
+  rcases h with rfl | rfl <;> rcases he with rfl | rfl <;> decide
+
 theorem decodeFallback_ok {c : Commit} {cm : PStr} {au msg : Option PStr} {impl : Option Bytes}
     (h : decodeFallback c = .ok ((cm, au, msg), impl)) :
-    ∃ k, resolve (encName none impl) = some k ∧ cm = ⟨k, c.committer⟩ ∧
+    (impl = none ∨ impl = some (bs "latin1")) ∧
+    ∃ k, resolve (implOr impl) = some k ∧
+      cm = ⟨k, c.committer⟩ ∧
       au = (if c.committer ≠ c.author then some ⟨k, c.author⟩ else none) ∧
       msg = c.message.map (fun m => ⟨k, m⟩) := by
   unfold decodeFallback at h
@@ -155,16 +160,16 @@ theorem decodeFallback_ok {c : Commit} {cm : PStr} {au msg : Option PStr} {impl 
   · rename_i d hd
     simp only [Except.ok.injEq, Prod.mk.injEq] at h
     obtain ⟨rfl, rfl⟩ := h
-    exact ⟨.utf8, by decide, decodeUsing_ok hd⟩
+    exact ⟨Or.inl rfl, .utf8, by decide, decodeUsing_ok hd⟩
   · cases hl : decodeUsing .latin1 c with
     | error e => simp [hl, Except.map] at h
     | ok d =>
       simp only [hl, Except.map, Except.ok.injEq, Prod.mk.injEq] at h
       obtain ⟨rfl, rfl⟩ := h
-      exact ⟨.latin1, by decide, decodeUsing_ok hl⟩
+      exact ⟨Or.inr rfl, .latin1, by decide, decodeUsing_ok hl⟩
 
+/-- what `import_commit` decoded, and that `export_commit` will pick the same codec -/
 theorem importDecode_ok {c : Commit} {cm : PStr} {au msg : Option PStr} {impl : Option Bytes}
-    (hf : c.encoding ≠ some (bs "false"))
     (h : importDecode c = .ok ((cm, au, msg), impl)) :
     ∃ k, resolve (encName c.encoding impl) = some k ∧ cm = ⟨k, c.committer⟩ ∧
       au = (if c.committer ≠ c.author then some ⟨k, c.author⟩ else none) ∧
@@ -173,23 +178,27 @@ theorem importDecode_ok {c : Commit} {cm : PStr} {au msg : Option PStr} {impl : 
   cases he : c.encoding with
   | none =>
     simp only [he] at h
-    simpa [encName] using decodeFallback_ok h
+    obtain ⟨hi, k, hk, rest⟩ := decodeFallback_ok h
+    exact ⟨k, by rw [encName_none impl hi none (Or.inl rfl)]; exact hk, rest⟩
   | some e =>
     simp only [he] at h
-    have hne : e ≠ bs "false" := fun x => hf (by rw [he, x])
     split at h
     · simp at h
-    · cases hr : resolve e with
-      | none => simp [hr] at h
-      | some k =>
-        simp only [hr] at h
-        cases hd : decodeUsing k c with
-        | error x => simp [hd, Except.map] at h
-        | ok d =>
-          simp only [hd, Except.map, Except.ok.injEq, Prod.mk.injEq] at h
-          obtain ⟨rfl, rfl⟩ := h
-          exact ⟨k, by simp [encName, hr], decodeUsing_ok hd⟩
-
+    · by_cases hf : e = bs "false"
+      · simp only [hf, ne_eq, not_true_eq_false, if_false] at h
+        obtain ⟨hi, k, hk, rest⟩ := decodeFallback_ok h
+        exact ⟨k, by rw [hf, encName_none impl hi _ (Or.inr rfl)]; exact hk, rest⟩
+      · simp only [hf, ne_eq, not_false_eq_true, if_true] at h
+        cases hr : resolve e with
+        | none => simp [hr] at h
+        | some k =>
+          simp only [hr] at h
+          cases hd : decodeUsing k c with
+          | error x => simp [hd, Except.map] at h
+          | ok d =>
+            simp only [hd, Except.map, Except.ok.injEq, Prod.mk.injEq] at h
+            obtain ⟨rfl, rfl⟩ := h
+            exact ⟨k, by simp [encName, hf, hr], decodeUsing_ok hd⟩
 
 theorem importExtra_unknown (strict : Bool) (k v : Bytes)
     (hk : k ≠ bs "HG:rename-source" ∧ k ≠ bs "HG:extra") :
